@@ -1,6 +1,6 @@
 PROPERTY = "C03"
 LEVEL = "proof"
-LEAN_MODULES = ["CifModel.Props.C03", "CifModel.Props.C03Extra", "CifModel.Lemmas.ParserTop", "CifModel.Lemmas.ParserQuiet", "CifModel.Lemmas.ParserConsistent", "CifModel.Lemmas.ParserStore", "CifModel.Lemmas.ParserDetProd", "CifModel.Lemmas.ParserDetLex", "CifModel.Lemmas.ParserDet"]
+LEAN_MODULES = ["CifModel.Props.C03", "CifModel.Props.C03Extra", "CifModel.Lemmas.ParserTop", "CifModel.Lemmas.ParserQuiet", "CifModel.Lemmas.ParserConsistent", "CifModel.Lemmas.ParserStore", "CifModel.Lemmas.ParserDetProd", "CifModel.Lemmas.ParserDetLex", "CifModel.Lemmas.ParserDet", "CifModel.Props.ReviewC03"]
 REQUIRED = ["CifModel.C03_total", "CifModel.C03_clamp", "CifModel.C03_report_site", "CifModel.C03_prefix_determinism", "CifModel.C03_result",
             "CifModel.C03_reported_partial", "CifModel.C03_reported", "CifModel.Model.Parser.parseInternal_die", "CifModel.C03_consistent_after", "CifModel.C03_consistent_after_fresh",
             "CifModel.C03_consistent_iff", "CifModel.C03_consistent_container", "CifModel.Model.Parser.parse_ok", "CifModel.Model.Parser.updIn_ok",
